@@ -59,6 +59,8 @@ class Verifier(Engine):
         for i, (pc_at, cond, exc, what) in enumerate(self.pending_raises):
             rs = st.fork()
             rs.pc = list(pc_at) + [cond]
+            if getattr(what, "heap", None) is not None:
+                rs.heap = dict(what.heap)
             rs.path = st.path + [f"raise:{exc}"]
             o = Outcome("raise", rs, exc=exc)
             o.what = what  # type: ignore[attr-defined]
@@ -104,6 +106,8 @@ class Verifier(Engine):
             raise Unsupported("bare raise", s)
         exc = s.exc.func if isinstance(s.exc, ast.Call) else s.exc
         name = ast.unparse(exc)
+        if isinstance(exc, ast.Name) and exc.id in st.exc_names:
+            name = st.exc_names[exc.id]  # `raise e` re-raises what this path caught
         st.path = st.path + [f"raise:{name}"]
         return [Outcome("raise", st, exc=name)]
 
@@ -310,6 +314,8 @@ class Verifier(Engine):
                 if "*" in names or o.exc in names or "Exception" in names or any(self.exc_subclass(o.exc, nm) for nm in names):
                     hs = o.st
                     hs.path = [p for p in hs.path] + [f"except:{o.exc}"]
+                    if h.name:
+                        hs.exc_names[h.name] = o.exc
                     outs += self.block(h.body, hs)
                     handled = True
                     break
@@ -318,7 +324,8 @@ class Verifier(Engine):
         return outs
 
     def exc_subclass(self, exc: str, base: str) -> bool:
-        table = {"KeyError": "LookupError", "IndexError": "LookupError", "FileNotFoundError": "OSError", "IOError": "OSError"}
+        table = {"KeyError": "LookupError", "IndexError": "LookupError", "FileNotFoundError": "OSError", "IOError": "OSError",
+                 "IntegrityError": "DBAPIError", "OperationalError": "DBAPIError"}
         return table.get(exc) == base or (exc == "IOError" and base == "OSError") or (exc == "OSError" and base == "IOError")
 
     def loop_spec(self, s: ast.stmt) -> LoopSpec:
@@ -364,8 +371,33 @@ class Verifier(Engine):
         current contract (coarse but sound: writes outside it are rejected)."""
         c = self.cur_contract
         has_write = False
+
+        def to_field(t: ast.expr) -> bool:
+            while isinstance(t, ast.Subscript):
+                t = t.value
+            return isinstance(t, ast.Attribute)
         for node in ast.walk(ast.Module(body=stmts, type_ignores=[])):
-            if isinstance(node, (ast.Assign, ast.AugAssign, ast.AnnAssign, ast.Call)):
+            if isinstance(node, (ast.Assign, ast.AugAssign, ast.AnnAssign)):
+                tgts = node.targets if isinstance(node, ast.Assign) else [node.target]
+                if any(to_field(e) for t in tgts for e in (t.elts if isinstance(t, ast.Tuple) else [t])):
+                    has_write = True
+            elif isinstance(node, ast.Call):
+                dotted = ast.unparse(node.func)
+                if dotted in LOG_CALLS or (isinstance(node.func, ast.Name) and (node.func.id in self.builtins or node.func.id in self.specs)):
+                    continue
+                if isinstance(node.func, ast.Name) and node.func.id in self.contracts and not self.contracts[node.func.id].modifies:
+                    continue
+                if isinstance(node.func, ast.Attribute):
+                    if node.func.attr in ("append", "extend", "add", "update", "remove", "discard", "clear", "pop"):
+                        if to_field(node.func.value):
+                            has_write = True
+                        continue
+                    cands = [k for k in self.contracts if k.endswith("." + node.func.attr)]
+                    if cands and all(not self.contracts[k].modifies for k in cands):
+                        continue
+                    if not cands and f"dict.{node.func.attr}" in self.methods or f"list.{node.func.attr}" in self.methods or f"set.{node.func.attr}" in self.methods \
+                            or f"str.{node.func.attr}" in self.methods:
+                        continue
                 has_write = True
         return set(c.modifies) if (c and has_write) else set()
 
@@ -517,7 +549,13 @@ class Verifier(Engine):
             raise ContractError(f"{qualname} is not a function")
         return node
 
-    def bind_signature(self, relpath: str, c: Contract, cls: Optional[str] = None) -> ast.FunctionDef:
+    def bind_signature(self, relpath: str, c: Contract, cls: Optional[str] = None) -> Any:
+        if c.external:
+            if not c.trusted:
+                raise ContractError(f"{c.name}: an external function can only have a trusted contract")
+            self.func_sigs[c.name] = ([(p, self.tenv.parse(t)) for p, t in c.params.items()], self.tenv.parse(c.returns) if c.returns else NONE)
+            self.func_defaults[c.name] = {}
+            return None
         fd = self.find_function(relpath, c.source_name or c.name, c.decorator)
         params: list[tuple[str, Ty]] = []
         defaults: dict[str, ast.expr] = {}
@@ -548,6 +586,9 @@ class Verifier(Engine):
     def verify_function(self, relpath: str, c: Contract, only_split: Optional[str] = None) -> dict[str, Any]:
         """Generate all VCs of one function.  Returns a record for the evidence."""
         fd = self.bind_signature(relpath, c)
+        if fd is None:
+            self.trusted_used.add(f"contract of external function {c.name} (assumed)")
+            return {"function": c.name, "file": "(external)", "trusted": True}
         src, _ = self.sources[relpath]
         seg = ast.get_source_segment(src, fd) or ""
         info: dict[str, Any] = {"function": c.name, "file": relpath, "sha256": hashlib.sha256(seg.encode()).hexdigest(),
@@ -686,6 +727,15 @@ class Verifier(Engine):
                 pst.heap = dict(pre.heap)
                 cond = self.clause(c.raises[o.exc], pst)
                 self.emit(st, cond, f"raises.{o.exc}.only_when", text=c.raises[o.exc])
+                # callers assume that a declared exception leaves the state as it was: prove it for every field this function may write
+                for hk in c.modifies:
+                    rname, fname = hk.split(".")
+                    rec = self.tenv.records[rname]
+                    now, before = self.heap_arr(st, rec, fname), self.heap_arr(pre, rec, fname)
+                    if not now.eq(before):
+                        r = z3.Const(f"fr${self.site()}", self.sort(rec))
+                        self.emit(st, z3.ForAll([r], z3.Select(now, r) == z3.Select(before, r)), f"raises.{o.exc}.state_unchanged.{fname}",
+                                  text=f"{hk} is unchanged when {o.exc} is raised")
             else:
                 what = getattr(o, "what", "")
                 self.emit(st, z3.BoolVal(False), f"no_raise.{o.exc}", text=f"path raising {o.exc} {what} must be infeasible")
